@@ -47,7 +47,55 @@ func extsToken(exts []*dtpb.Extension) string {
 
 func mkExt(u string, v int) *dtpb.Extension { return extension.New(u, fhir.Integer(int32(v))) }
 
+// runC20WrapperHistory: a wrapper is a mutable holder; after its owner points it at another resource (or at none), unwrapping
+// it — directly, through the bundle helpers, or through a path over `entry.resource` — yields the resource it holds NOW.
+func runC20WrapperHistory(c *Ctx) {
+	mk := func(js string) fhir.Resource { return mustResource(js) }
+	pairs := [][2]string{
+		{`{"resourceType":"Patient","id":"first"}`, `{"resourceType":"Observation","id":"second","status":"final","code":{"text":"x"}}`},
+		{`{"resourceType":"Patient","id":"first"}`, `{"resourceType":"Patient","id":"second"}`},
+		{`{"resourceType":"Binary","id":"first","contentType":"text/plain"}`, `{"resourceType":"Patient","id":"second"}`},
+		{`{"resourceType":"Organization","id":"first"}`, `{"resourceType":"Location","id":"second"}`},
+	}
+	for _, pr := range pairs {
+		a, b := mk(pr[0]), mk(pr[1])
+		what := pr[0] + " then " + pr[1]
+		var w *bcrpb.ContainedResource
+		_, pan, _ := safeErr(func() error { w = containedresource.Wrap(a); return nil })
+		if pan || w == nil {
+			c.Law(false, "C20/wrap-unwrap", "wrapping a resource succeeds", what, "panic or nil")
+			continue
+		}
+		entry := &bcrpb.Bundle_Entry{Resource: w}
+		bun := &bcrpb.Bundle{Entry: []*bcrpb.Bundle_Entry{entry}}
+		idPath := fhirpath.MustCompile("Bundle.entry.resource.id")
+		readID := func() string {
+			o := safeEval(func() (system.Collection, error) { return idPath.Evaluate([]fhir.Resource{bun}) })
+			return canonOutcome(o, nil)
+		}
+		for round := 0; round < 2; round++ { // twice: whatever the first unwrapping left behind is met by the second
+			c.Observe("wrapper history first "+what, true)
+			c.Law(containedresource.Unwrap(w) == a, "C20/wrap-unwrap", "unwrapping a wrapped resource returns the very same resource", what+" (before the wrapper is changed)", "another resource")
+			c.Law(len(bundle.Unwrap(bun)) == 1 && bundle.Unwrap(bun)[0] == a, "C20/wrapper-history", "a wrapper yields the resource it holds now", "bundle.Unwrap before the change: "+what, "another resource")
+		}
+		idBefore := readID()
+		// the owner points the same wrapper object at the other resource
+		w.OneofResource = containedresource.Wrap(b).OneofResource
+		got := containedresource.Unwrap(w)
+		c.Observe("wrapper history second "+what, true)
+		c.Law(got == b, "C20/wrapper-history", "a wrapper yields the resource it holds now", "containedresource.Unwrap after the wrapper was pointed at the second resource: "+what, fmt.Sprintf("%T id %v", got, containedresource.ID(w)))
+		us := bundle.Unwrap(bun)
+		c.Law(len(us) == 1 && us[0] == b, "C20/wrapper-history", "a wrapper yields the resource it holds now", "bundle.Unwrap after the entry's wrapper was pointed at the second resource: "+what, fmt.Sprint(len(us)))
+		idAfter := readID()
+		c.Law(idBefore != idAfter && strings.Contains(idAfter, hexs("second")[1:]), "C20/wrapper-history", "a wrapper yields the resource it holds now", "Bundle.entry.resource.id after the entry's wrapper was pointed at the second resource: "+what, idBefore+" then "+idAfter)
+		// ... and at none
+		w.OneofResource = nil
+		c.Law(containedresource.Unwrap(w) == nil, "C20/wrapper-history", "a wrapper yields the resource it holds now", "containedresource.Unwrap after the wrapper was emptied: "+what, "a resource")
+	}
+}
+
 func runC20(c *Ctx) {
+	runC20WrapperHistory(c)
 	c.meta.Rule = "exhaustive: all 146 resource types (create by name, TypeOf, contained wrap/unwrap identity, bundle entry wrap/unwrap, bundle order) and all Extension.ValueX member types (FromElement/Unwrap identity, field hit); snake-casing on every table row plus random CamelCase strings; random extension lists (length 0..6 over 3 URLs) x {upsert, setByURL, appendInto, overwrite}; ExtractAllWithPath on generated resources for 6 element types; distinct by operation line"
 	// ---- snake casing
 	cr := (&bcrpb.ContainedResource{}).ProtoReflect().Descriptor()
